@@ -93,77 +93,30 @@ theorem parseCapC_fst (cap : Nat) (evs : List XmlEvent) (fuel : Nat) :
     (parseCapC cap evs fuel).1 = parseCap cap evs fuel := reportLoopC_fst _ _ _ _
 /-! ### attribute passes -/
 
-theorem getAttrCostAux_bound (key : Name) (seen : List Name) (a : List Attr) :
-    let c := getAttrCostAux key seen a
-    c.reads = 0 ∧ c.attrs ≤ a.length ∧ 2 * c.dupCmp + a.length ≤ a.length * (2 * seen.length + a.length) ∧
-    c.mapOps = 0 ∧ c.alloc = 0 := by
-  induction a generalizing seen with
-  | nil => simp [getAttrCostAux]
+theorem getAttrCost_le (key : Name) (a : List Attr) :
+    (getAttrCost key a).reads = 0 ∧ (getAttrCost key a).attrs ≤ a.length ∧
+    (getAttrCost key a).mapOps = 0 ∧ (getAttrCost key a).alloc = 0 := by
+  induction a with
+  | nil => simp [getAttrCost]
   | cons kv rest ih =>
     obtain ⟨k, v⟩ := kv
-    simp only [getAttrCostAux]
-    have h := ih (k :: seen)
-    simp only [List.length_cons] at h ⊢
-    obtain ⟨h1, h2, h3, h4, h5⟩ := h
-    have e : (rest.length + 1) * (2 * seen.length + (rest.length + 1))
-        = rest.length * (2 * (seen.length + 1) + rest.length) + 2 * seen.length + 1 := by ring
-    have hpos : rest.length ≤ rest.length * (2 * (seen.length + 1) + rest.length) :=
-      Nat.le_mul_of_pos_right _ (by omega)
+    simp only [getAttrCost]
     split
     · simp
-    · split
-      · simp
-      · simp only [Cost.add]
-        refine ⟨by omega, by omega, ?_, by omega, by omega⟩
-        rw [e]; omega
+    · simp only [Cost.add, List.length_cons]; omega
 
-theorem lineAttrsCost_bound (seen : List Name) (a : List Attr) :
-    let c := lineAttrsCost seen a
-    c.reads = 0 ∧ c.attrs ≤ a.length ∧ 2 * c.dupCmp + a.length ≤ a.length * (2 * seen.length + a.length) ∧
-    c.mapOps = 0 ∧ c.alloc = 0 := by
-  induction a generalizing seen with
+theorem lineAttrsCost_le (a : List Attr) :
+    (lineAttrsCost a).reads = 0 ∧ (lineAttrsCost a).attrs ≤ a.length ∧
+    (lineAttrsCost a).mapOps = 0 ∧ (lineAttrsCost a).alloc = 0 := by
+  induction a with
   | nil => simp [lineAttrsCost]
   | cons kv rest ih =>
     obtain ⟨k, v⟩ := kv
     simp only [lineAttrsCost]
-    have h := ih (k :: seen)
-    simp only [List.length_cons] at h ⊢
-    obtain ⟨h1, h2, h3, h4, h5⟩ := h
-    have e : (rest.length + 1) * (2 * seen.length + (rest.length + 1))
-        = rest.length * (2 * (seen.length + 1) + rest.length) + 2 * seen.length + 1 := by ring
-    have hpos : rest.length ≤ rest.length * (2 * (seen.length + 1) + rest.length) :=
-      Nat.le_mul_of_pos_right _ (by omega)
-    have stop : (0:Nat) = 0 ∧ 1 ≤ rest.length + 1 ∧
-        2 * seen.length + (rest.length + 1) ≤ (rest.length + 1) * (2 * seen.length + (rest.length + 1)) ∧
-        (0:Nat) = 0 ∧ (0:Nat) = 0 := by
-      refine ⟨rfl, by omega, ?_, rfl, rfl⟩
-      rw [e]; omega
-    have go : ((({ attrs := 1, dupCmp := seen.length } : Cost).add (lineAttrsCost (k :: seen) rest)).reads = 0 ∧
-        (({ attrs := 1, dupCmp := seen.length } : Cost).add (lineAttrsCost (k :: seen) rest)).attrs ≤ rest.length + 1 ∧
-        2 * (({ attrs := 1, dupCmp := seen.length } : Cost).add (lineAttrsCost (k :: seen) rest)).dupCmp + (rest.length + 1)
-          ≤ (rest.length + 1) * (2 * seen.length + (rest.length + 1)) ∧
-        (({ attrs := 1, dupCmp := seen.length } : Cost).add (lineAttrsCost (k :: seen) rest)).mapOps = 0 ∧
-        (({ attrs := 1, dupCmp := seen.length } : Cost).add (lineAttrsCost (k :: seen) rest)).alloc = 0) := by
-      simp only [Cost.add]
-      refine ⟨by omega, by omega, ?_, by omega, by omega⟩
-      rw [e]; omega
     repeat' split
-    all_goals first | exact go | simp
-
-/-- one pass from the start of an element -/
-theorem getAttrCost_le (key : Name) (a : List Attr) :
-    (getAttrCost key a).reads = 0 ∧ (getAttrCost key a).attrs ≤ a.length ∧
-    2 * (getAttrCost key a).dupCmp + a.length ≤ a.length * a.length ∧
-    (getAttrCost key a).mapOps = 0 ∧ (getAttrCost key a).alloc = 0 := by
-  have := getAttrCostAux_bound key [] a
-  simpa [getAttrCost] using this
-
-theorem lineAttrsCost_le (a : List Attr) :
-    (lineAttrsCost [] a).reads = 0 ∧ (lineAttrsCost [] a).attrs ≤ a.length ∧
-    2 * (lineAttrsCost [] a).dupCmp + a.length ≤ a.length * a.length ∧
-    (lineAttrsCost [] a).mapOps = 0 ∧ (lineAttrsCost [] a).alloc = 0 := by
-  have := lineAttrsCost_bound [] a
-  simpa using this
+    all_goals first
+      | (simp; done)
+      | (simp only [Cost.add, List.length_cons]; omega)
 
 /-! ### a budget for a loop: what it may spend on the events it consumes -/
 
@@ -255,7 +208,7 @@ theorem withCost_withCost {α : Type} (c d : Cost) (p : α × Cost) :
   simp [withCost, Cost.add, Nat.add_assoc]
 
 theorem commitCost_le (la : LineAcc) : (commitCost la).reads = 0 ∧ (commitCost la).attrs = 0 ∧
-    (commitCost la).dupCmp = 0 ∧ (commitCost la).mapOps ≤ 1 := by
+    (commitCost la).mapOps ≤ 1 := by
   unfold commitCost
   repeat' split
   all_goals simp
@@ -990,7 +943,7 @@ theorem reportLoopC_size (cap fuel : Nat) (evs : List XmlEvent) (res out : List 
       | text => exact rest _ h
       | other => exact rest _ h
 
-/-! ### the quadratic family -/
+/-! ### the names `abKeys w` -/
 
 theorem abKeys_length (w : Nat) : (abKeys w).length = 2 ^ w := by
   induction w with
@@ -1037,109 +990,7 @@ theorem abKeys_nodup (w : Nat) : (abKeys w).Nodup := by
     obtain ⟨b', _, rfl⟩ := hb
     simp
 
-/-- exact count: distinct keys, the wanted key last – the i-th attribute is compared with all
-i earlier ones -/
-theorem getAttrCostAux_nodup (key v : Name) (ks seen : List Name) (hnd : ks.Nodup)
-    (hs : ∀ k ∈ ks, k ∉ seen ∧ k ≠ key) (hk : key ∉ seen) :
-    2 * (getAttrCostAux key seen (ks.map (fun k => (k, ([] : Name))) ++ [(key, v)])).dupCmp
-      = (ks.length + 1) * (2 * seen.length + ks.length) := by
-  induction ks generalizing seen with
-  | nil => simp [getAttrCostAux, hk]
-  | cons k ks ih =>
-    have h1 := hs k (by simp)
-    have hnd' := List.nodup_cons.mp hnd
-    have := ih (k :: seen) hnd'.2
-      (fun k' hk' => ⟨by
-        intro hmem
-        simp only [List.mem_cons] at hmem
-        rcases hmem with hmem | hmem
-        · subst hmem; exact hnd'.1 hk'
-        · exact (hs k' (List.mem_cons_of_mem _ hk')).1 hmem, (hs k' (List.mem_cons_of_mem _ hk')).2⟩)
-      (by
-        intro hmem
-        simp only [List.mem_cons] at hmem
-        rcases hmem with hmem | hmem
-        · exact h1.2 hmem.symm
-        · exact hk hmem)
-    simp only [List.map_cons, List.cons_append, getAttrCostAux, h1.1, h1.2, if_false, Cost.add,
-      List.length_cons] at this ⊢
-    rw [Nat.mul_add, this]
-    ring
-
-theorem manyAttrs_dupCmp (w : Nat) :
-    2 * (getAttrCost sName (manyAttrs w)).dupCmp = (2 ^ w + 1) * 2 ^ w := by
-  have := getAttrCostAux_nodup sName [112] (abKeys w) [] (abKeys_nodup w)
-    (fun k hk => ⟨by simp, abKeys_ne_name hk⟩) (by simp)
-  simpa [getAttrCost, manyAttrs, abKeys_length] using this
-
-theorem getAttr_manyAttrs (w : Nat) : getAttr sName (manyAttrs w) = .ok [112] := by
-  have aux : ∀ (ks seen : List Name), ks.Nodup → (∀ k ∈ ks, k ∉ seen ∧ k ≠ sName) → sName ∉ seen →
-      getAttrAux sName seen (ks.map (fun k => (k, ([] : Name))) ++ [(sName, [112])]) = .ok [112] := by
-    intro ks
-    induction ks with
-    | nil => intro seen _ _ hk; simp [getAttrAux, hk, unescape, unescapeGo]
-    | cons k ks ih =>
-      intro seen hnd hs hk
-      have h1 := hs k (by simp)
-      have hnd' := List.nodup_cons.mp hnd
-      simp only [List.map_cons, List.cons_append, getAttrAux, h1.1, h1.2, if_false]
-      apply ih _ hnd'.2
-      · intro k' hk'
-        refine ⟨?_, (hs k' (List.mem_cons_of_mem _ hk')).2⟩
-        intro hmem
-        simp only [List.mem_cons] at hmem
-        rcases hmem with hmem | hmem
-        · subst hmem; exact hnd'.1 hk'
-        · exact (hs k' (List.mem_cons_of_mem _ hk')).1 hmem
-      · intro hmem
-        simp only [List.mem_cons] at hmem
-        rcases hmem with hmem | hmem
-        · exact h1.2 hmem.symm
-        · exact hk hmem
-  exact aux (abKeys w) [] (abKeys_nodup w) (fun k hk => ⟨by simp, abKeys_ne_name hk⟩) (by simp)
-
-theorem attrBytes_manyAttrs (w : Nat) : attrBytes (manyAttrs w) = 2 ^ w * (w + 4) + 9 := by
-  have aux : ∀ ks : List Name, (∀ k ∈ ks, k.length = w) →
-      ((ks.map (fun k => (k, ([] : Name)))).map fun kv => kv.1.length + kv.2.length + 4).sum
-        = ks.length * (w + 4) := by
-    intro ks
-    induction ks with
-    | nil => simp
-    | cons k ks ih =>
-      intro h
-      have := ih (fun k' hk' => h k' (List.mem_cons_of_mem _ hk'))
-      simp only [List.map_cons, List.sum_cons, List.length_cons, List.length_nil] at this ⊢
-      rw [this, h k (by simp)]
-      ring
-  simp only [attrBytes, manyAttrs, List.map_append, List.sum_append]
-  rw [aux _ (fun k hk => abKeys_mem_length hk), abKeys_length]
-  simp [sName]
-
 theorem localName_sPackage : localName sPackage = sPackage := by decide
-
-/-- the whole report of the family: 2 events, `2^w (w + 4) + 25` bytes, and `2^w (2^w + 1) / 2`
-comparisons -/
-theorem manyAttrsReport_cost (cap w : Nat) :
-    2 * (cost cap (manyAttrsReport w)).dupCmp = (2 ^ w + 1) * 2 ^ w ∧
-    evsBytes (manyAttrsReport w) = 2 ^ w * (w + 4) + 25 ∧
-    (parseCapC cap (manyAttrsReport w) (enoughFuel (manyAttrsReport w))).1 = .ok [] := by
-  have h1 := manyAttrs_dupCmp w
-  have h2 := getAttr_manyAttrs w
-  have h3 := attrBytes_manyAttrs w
-  have e : enoughFuel (manyAttrsReport w) = 5 := rfl
-  have run1 : (parseCapC cap (manyAttrsReport w) 5).1 = .ok [] := by
-    simp only [parseCapC, manyAttrsReport, expand, reportLoopC, packageLoopC, localName_sPackage, if_true, h2,
-      withCost, Cost.add, tick, List.append_nil, List.map_nil]
-  have run2 : (parseCapC cap (manyAttrsReport w) 5).2.dupCmp = (getAttrCost sName (manyAttrs w)).dupCmp := by
-    simp only [parseCapC, manyAttrsReport, expand, reportLoopC, packageLoopC, localName_sPackage, if_true, h2,
-      withCost, Cost.add, tick, List.append_nil, List.map_nil]
-    simp
-  refine ⟨?_, ?_, ?_⟩
-  · simp only [cost, e, run2]
-    omega
-  · simp only [evsBytes, manyAttrsReport, evBytes, List.map_cons, List.map_nil, List.sum_cons, List.sum_nil, h3]
-    simp [sPackage]; omega
-  · rw [e, run1]
 
 /-! ### the budget in terms of the size of the event stream -/
 
@@ -1150,17 +1001,6 @@ theorem sumMax_fields (evs : List XmlEvent) :
   | nil => simp [sumMax, attrCount]
   | cons e r ih =>
     simp only [sumMax, Cost.add, evMax, attrCount, List.map_cons, List.sum_cons, List.length_cons] at ih ⊢
-    omega
-
-theorem sumMax_dupCmp_le (A : Nat) (evs : List XmlEvent) (h : ∀ e ∈ evs, (evAttrs e).length ≤ A) :
-    (sumMax evs).dupCmp ≤ A * attrCount evs := by
-  induction evs with
-  | nil => simp [sumMax, attrCount]
-  | cons e r ih =>
-    have h1 := h e (by simp)
-    have h2 := ih (fun e' he' => h e' (List.mem_cons_of_mem _ he'))
-    have h3 : (evAttrs e).length * (evAttrs e).length ≤ A * (evAttrs e).length := Nat.mul_le_mul_right _ h1
-    simp only [sumMax, Cost.add, evMax, attrCount, List.map_cons, List.sum_cons, Nat.mul_add] at h2 ⊢
     omega
 
 theorem sumMax_alloc_le (B : Nat) (evs : List XmlEvent) (h : ∀ e ∈ evs, lineAlloc e ≤ B) :
